@@ -136,6 +136,9 @@ impl<'a> RecordFrame<Frame<&'a [Bytes]>, &'a [Bytes]> for Packet {
 /// so it walks every arm of every `match` on the sender state even when only one is feasible. The
 /// data paths that cannot run once the state is the connection error (or a final state) are
 /// replaced by stubs that FAIL when reached: the cut cannot hide anything.
+fn stub_encoding_strategy(_f: &StreamFrame, _capacity: usize) -> qbase::frame::EncodingStrategy {
+    panic!("a frame is written after the connection error")
+}
 fn stub_sndbuf_acked(_b: &mut SendBuf, _r: &Range<u64>) {
     panic!("data path reached after the connection error")
 }
@@ -267,7 +270,7 @@ fn poison_step<const KIND: u8>() {
             assert!(e.kind() == k1);
         }
     }
-    kani::cover!(parked == 7, "three parked tasks");
+    kani::cover!(parked == if KIND <= 1 { 7 } else if KIND == 2 { 6 } else { 0 }, "every task that can be parked in this state is parked");
     kani::cover!(parked == 0, "nobody parked");
     core::mem::forget(outgoing);
     core::mem::forget(arc);
@@ -347,6 +350,7 @@ fn c17_outgoing_feedback_after_error() {
 #[kani::stub(tracing::callsite::DefaultCallsite::interest, stub_tr_interest)]
 #[kani::stub(tracing::__macro_support::__is_enabled, stub_tr_enabled)]
 #[kani::stub(tracing::Event::dispatch, stub_tr_dispatch)]
+#[kani::stub(qbase::frame::StreamFrame::encoding_strategy, stub_encoding_strategy)]
 fn c17_outgoing_load_after_error() {
     let k1 = any_kind();
     let arc: ArcSender<Broker> = ArcSender(Arc::new(Mutex::new(Err(conn_error(k1)))));
